@@ -4,6 +4,7 @@
 -/
 import BespokeVerif.Model.Expr
 import BespokeVerif.Lemmas.Expr
+import BespokeVerif.Lemmas.LexFuel
 namespace BV.C07
 open BV
 
@@ -13,6 +14,16 @@ open BV
     merely because fuel ran out -/
 theorem parse_never_out_of_fuel (ts : List Tok) : parseExpr ts ≠ .error .outOfFuel := by
   exact ParseLemmas.parseExpr_ne_oof ts
+
+/-- the same for the lexer: every step consumes at least one character and reports nothing but
+    `badExpression`, so the fuel `lexExpr` supplies (length of the text + 1) is never exhausted -/
+theorem lex_never_out_of_fuel (s : List Char) : lexExpr s ≠ .error .outOfFuel :=
+  lexExpr_ne_oof s
+
+/-- every lexer step makes progress (the rest is strictly shorter) and fails only with `badExpression` -/
+theorem lex_step_progress (cs : List Char) (r : Except Err Tok) (rest : List Char)
+    (h : lexStep cs = some (r, rest)) : rest.length < cs.length ∧ ∀ e, r = .error e → e = .badExpression :=
+  lexStep_ok cs r rest h
 
 /-- soundness: whatever the recursive-descent parser accepts is derivable in the grammar
     (precedence: unary/byte extraction > `* / %` > `+ -` > `<< >>` > `& | ^`, left-associative) -/
